@@ -439,8 +439,18 @@ def c_quat_roundtrip(case, ctx):
     _close(after, before, s, "gTM() after t.setQuat(t.getQuat()) vs before")
     _close(after, A, s, "gTM() after t.setQuat(t.getQuat()) vs the described pose")
     # ... and as a list, and with the sign flipped (q and -q are the same rotation)
+    usable = PI - O.angle(A[:3, :3]) >= 1e-3       # (frame conversion reads the six-vector; near pi that is C01's finding)
+    fsr = lib()["fsr"]
+    if usable:
+        # the transform is the same TRANSFORM afterwards, not just the same matrix: used as the reference of a frame
+        # conversion (which reads the six-vector) it still acts as A
+        _close(_gtm(sut(fsr.localToGlobal, t, sut(lib()["tm"])), "localToGlobal(t, identity) after setQuat(getQuat())"), A, s,
+               "localToGlobal(t, identity) after t.setQuat(t.getQuat()) vs the described pose")
     sut(t.setQuat, [float(-x) for x in q])
     _close(_gtm(t, "t after setQuat(-getQuat())"), before, s, "gTM() after t.setQuat(-t.getQuat()) vs before")
+    if usable:
+        _close(_gtm(sut(fsr.localToGlobal, t, sut(lib()["tm"])), "localToGlobal(t, identity) after setQuat(-getQuat())"), A, s,
+               "localToGlobal(t, identity) after t.setQuat(-t.getQuat()) vs the described pose")
 
 
 # ----------------------------------------------------------------------------------- strategies
